@@ -1,5 +1,6 @@
 #include <cstdlib>
 #include <cstring>
+#include <stdint.h>
 
 #include <occa/types/bits.hpp>
 #include <occa/types/primitive.hpp>
@@ -278,6 +279,13 @@ namespace occa {
       default: return "";
     }
 
+    // Without a suffix, primitive::load reads a number back as a signed type.
+    // Unsigned values that do not fit that signed type need the U suffix
+    // to keep their value
+    if (((type & primitiveType::uint32_) && (value.uint32_ > (uint32_t) INT32_MAX)) ||
+        ((type & primitiveType::uint64_) && (value.uint64_ > (uint64_t) INT64_MAX))) {
+      str += 'U';
+    }
     if (type & (primitiveType::uint64_ |
                 primitiveType::int64_)) {
       str += 'L';
